@@ -17,7 +17,7 @@ fn chmod(p: &std::path::Path, mode: u32) {
     std::fs::set_permissions(p, std::fs::Permissions::from_mode(mode)).unwrap();
 }
 
-fn perm_operand(rng: &mut Rng) -> String {
+pub fn perm_operand(rng: &mut Rng) -> String {
     let prefix = *rng.pick(&["", "", "-", "/"]);
     let body = match rng.below(6) {
         0 | 1 => format!("{:o}", rng.below(4096)),
